@@ -355,6 +355,29 @@ pub fn run(ctx: &Ctx) -> i32 {
         }
     }
     col.layer("e2-must-reject", must_reject().len() as u64, true, json!({}));
+    // integer literals around the ends of the INT range in every position that takes a number
+    {
+        let nums: [(&str, bool); 10] = [("9223372036854775806", true), ("9223372036854775807", true), ("9223372036854775808", false), ("9223372036854775809", false), ("10000000000000000000", false), ("18446744073709551615", false), ("18446744073709551616", false), ("18446744073709551617", false), ("100000000000000000000", false), ("99999999999999999999999999", false)];
+        let forms = ["SELECT {} FROM t", "SELECT x FROM t WHERE x = {}", "SELECT x FROM t WHERE x IN (1, {})", "SELECT x + {} FROM t", "SELECT x FROM t LIMIT {}", "CREATE TABLE x({ .a } => a INT DEFAULT {});", "CREATE TABLE x(line = '(a)', line[{}] => a INT);", "CREATE TABLE x({ .a[{}] } => a INT);", "SELECT a[{}] FROM t"];
+        let mut nb = 0u64;
+        for (n, in_range) in nums {
+            for f in forms {
+                let t = f.replace("{}", n);
+                nb += 1;
+                col.eval(1);
+                col.nontrivial(h64(&("number-boundary", &t)));
+                let c = json!({"layer": "number-boundary", "text": t, "in_range": in_range});
+                match observe(&t) {
+                    Ok(ParseObs::Ok) if !in_range => col.fail(fail(format!("accepted-invalid:number-out-of-range:{}", f.replace("{}", "N")), format!("{:?} is accepted although {} is outside the INT range", t, n), c, json!("error"), json!("accepted"), nb)),
+                    Ok(ParseObs::Ok) => {}
+                    Ok(_) if in_range => col.fail(fail(format!("rejected-valid:number-in-range:{}", f.replace("{}", "N")), format!("{:?} is rejected although {} is an INT", t, n), c, json!("accepted"), json!("error"), nb)),
+                    Ok(_) => {}
+                    Err(p) => col.fail(fail(panic_signature(&p), format!("parsing {:?} panicked: {}", t, p.msg), c, json!("error"), json!(p.msg), nb)),
+                }
+            }
+        }
+        col.layer("e3-number-boundary", nb, true, json!({"numbers": nums.iter().map(|x| x.0).collect::<Vec<_>>(), "forms": forms}));
+    }
     col.sample(json!({"layer": "named", "text": "CREATE TABLE x({ } => a INT);"}));
     // (f) nesting up to the documented bound, in child processes with a 2 MiB stack
     let mut n_f = 0;
@@ -404,6 +427,17 @@ pub fn replay(case: &J) -> Vec<Failure> {
         let t = case["text"].as_str().unwrap_or("");
         return match observe(t) {
             Ok(ParseObs::Ok) => vec![fail("accepted-invalid:replay".into(), format!("{:?} is accepted", t), case.clone(), json!("error"), json!("accepted"), 0)],
+            Ok(_) => vec![],
+            Err(p) => vec![fail(panic_signature(&p), p.msg.clone(), case.clone(), json!("error"), json!(p.msg), 0)],
+        };
+    }
+    if case["layer"].as_str() == Some("number-boundary") {
+        let t = case["text"].as_str().unwrap_or("");
+        let in_range = case["in_range"].as_bool().unwrap_or(false);
+        return match observe(t) {
+            Ok(ParseObs::Ok) if !in_range => vec![fail("accepted-invalid:number-out-of-range".into(), format!("{:?} is accepted", t), case.clone(), json!("error"), json!("accepted"), 0)],
+            Ok(ParseObs::Ok) => vec![],
+            Ok(_) if in_range => vec![fail("rejected-valid:number-in-range".into(), format!("{:?} is rejected", t), case.clone(), json!("accepted"), json!("error"), 0)],
             Ok(_) => vec![],
             Err(p) => vec![fail(panic_signature(&p), p.msg.clone(), case.clone(), json!("error"), json!(p.msg), 0)],
         };
